@@ -53,6 +53,15 @@ def run_check(prop: str, tier: str, root: str, *, write_evidence: bool = True, o
         tb = traceback.format_exc(limit=6)
         error = f"checker crashed: {type(err).__name__}: {err} | {tb.splitlines()[-3].strip() if len(tb.splitlines()) > 3 else ''}"
         sys.stderr.write(tb)
+    if tier == "thorough" and write_evidence and not only_rules and not os.environ.get("YAWSA_SELFTEST_CHILD"):
+        # checker self-validation on mutated / refactored scratch copies of the current tree
+        from . import selftest
+
+        st = selftest.run_selftest(root, only=prop, jobs=min(16, os.cpu_count() or 1), quiet=True)
+        res.notes.append({"self_validation": dict(selftest.LAST_SUMMARY)})
+        if st != 0:
+            msg = f"checker self-validation failed for {selftest.LAST_SUMMARY.get('failed')}"
+            error = f"{error}; {msg}" if error else msg
     code = emit(res, wall_s=time.time() - t0, seed=seed, explanation=explanation or f"static analysis of {prop}", error=error, root=root, write_evidence=write_evidence)
     if code == 0:
         n = len(res.obligations)
@@ -79,15 +88,7 @@ def main(argv=None) -> int:
     a = ap.parse_args(argv)
 
     if a.cmd == "check":
-        code = run_check(a.prop, a.tier, a.root, write_evidence=not a.no_evidence, only_rules=a.rule)
-        if code == 0 and a.tier == "thorough" and not a.no_evidence and not a.rule:
-            from .selftest import run_selftest
-
-            st = run_selftest(a.root, only=a.prop, jobs=min(16, os.cpu_count() or 1), quiet=True)
-            if st != 0:
-                print(f"ANALYSIS-ERROR property={a.prop} checker self-validation failed (see output above)")
-                return 2
-        return code
+        return run_check(a.prop, a.tier, a.root, write_evidence=not a.no_evidence, only_rules=a.rule)
     if a.cmd == "replay":
         with open(a.path, encoding="utf-8") as f:
             j = json.load(f)
